@@ -864,3 +864,227 @@ func c13Proto(b *types.Block) *tmproto.Block {
 	}
 	return bp
 }
+
+// ------------------------------------------------------------------ TestVerifC13Scenario
+
+// scripts: 0 honest; 1 serves the never-committed alt block at even heights; 2 serves blocks
+// whose LastCommit has a garbage signature in slot 0; 3 serves the tip block with a LastCommit
+// whose last slot is a nil vote with a garbage signature (the rest genuine: F7); 4 answers every
+// request with a block 150 heights ahead; 5 sends every block twice; 6 serves the tip block with a
+// LastCommit in which one slot carries a foreign address (all signatures genuine: known class 31)
+type c13PeerSpec struct {
+	script       uint64
+	base, height int64
+}
+
+type c13Scen struct {
+	name  string
+	wi    int
+	start int64
+	tip   int64 // height announced by the honest peers
+	peers []c13PeerSpec
+}
+
+var c13ScriptNames = []string{"honest", "alt-block", "forged-commit", "padded-tip-commit", "far-height", "twice", "foreign-address-tip-commit"}
+
+func c13Scenarios(r *vg.Rand, n int) []c13Scen {
+	L := c13L
+	ss := []c13Scen{
+		{"honest-only", 0, 0, L, []c13PeerSpec{{0, 1, L}}},
+		{"padded-tip-commit", 0, 0, L - 1, []c13PeerSpec{{0, 1, L - 1}, {0, 1, L - 1}, {3, L, L}}},
+		{"foreign-address-tip-commit", 1, 0, L - 1, []c13PeerSpec{{0, 1, L - 1}, {0, 1, L - 1}, {6, L, L}}},
+		{"alt-block", 1, 0, L, []c13PeerSpec{{1, 1, L}, {0, 1, L}, {0, 1, L}}},
+		{"forged-commit", 0, 0, L, []c13PeerSpec{{2, 1, L}, {0, 1, L}, {0, 1, L}, {0, 1, L}}},
+		{"far-height", 2, 0, L, []c13PeerSpec{{4, 1, L}, {0, 1, L}}},
+		{"twice", 0, 1, L, []c13PeerSpec{{5, 1, L}, {0, 1, L}, {0, 1, L}}},
+		{"mix-from-2", 1, 2, L, []c13PeerSpec{{1, 1, 4}, {2, 3, L}, {0, 1, L}, {0, 1, L}, {0, 1, L}}},
+		{"forged-commit-second-only", 2, 0, L, []c13PeerSpec{{2, 3, 3}, {0, 1, 2}, {0, 1, 2}, {0, 1, L}}},
+	}
+	for len(ss) < n {
+		k := len(ss)
+		sc := c13Scen{name: fmt.Sprintf("random-%d", k), wi: r.Intn(3), start: int64(r.Intn(3)), tip: L}
+		np := 3 + r.Intn(3)
+		for i := 0; i < np; i++ {
+			s := uint64(0)
+			if i < np-2 && r.Intn(3) != 0 { // liars connect first, at least two honest peers
+				s = []uint64{1, 2, 4, 5}[r.Intn(4)]
+			}
+			sc.peers = append(sc.peers, c13PeerSpec{s, 1, L})
+		}
+		ss = append(ss, sc)
+	}
+	return ss[:n]
+}
+
+func TestVerifC13Scenario(t *testing.T) {
+	cs := vg.NewCases("C13", "c13_scen", "TM.C13.Exec")
+	root := vg.NewRand(vg.Seed())
+	scens := c13Scenarios(root.Fork(999), vg.Scale(9, 120))
+	for k, sc := range scens {
+		id := cs.NextID()
+		if !cs.Want(id) {
+			continue
+		}
+		r := root.Fork(uint64(1000 + k))
+		w := c13GetWorlds()[sc.wi]
+		node := c13NewNode(w, sc.start)
+		L := c13L
+		var padded, foreign *types.Commit
+		for _, ps := range sc.peers {
+			node.connect(ps.base, ps.height)
+		}
+		used := make([]bool, len(sc.peers))
+		var journal []string
+		nbad := int64(0) // bad answers that entered a requester and will be part of a rejected pair
+		serve := func(rq c13Req) {
+			i := int(rq.p.num - 1)
+			ps, h := sc.peers[i], rq.height
+			if h < 1 || h > L || !rq.p.IsRunning() {
+				return
+			}
+			accepted := func(b *types.Block) bool {
+				pn, has := node.reqView(b.Height)
+				return has && pn == rq.p.num
+			}
+			switch ps.script {
+			case 0:
+				node.deliver(rq.p, w.blocks[h])
+			case 1:
+				if h%2 == 0 {
+					node.deliver(rq.p, w.alt[h])
+					if accepted(w.alt[h]) {
+						used[i] = true
+						nbad++
+						journal = append(journal, fmt.Sprintf("peer %d: alt block for height %d", rq.p.num, h))
+					}
+				} else {
+					node.deliver(rq.p, w.blocks[h])
+				}
+			case 2:
+				if h >= 2 {
+					b := w.second(h-1, w.realCommit(w.mutate("garbage-early", h-1, h-1, r)))
+					node.deliver(rq.p, b)
+					if accepted(b) {
+						used[i] = true
+						nbad++
+						journal = append(journal, fmt.Sprintf("peer %d: block %d with garbage signature in its LastCommit", rq.p.num, h))
+					}
+				} else {
+					node.deliver(rq.p, w.blocks[h])
+				}
+			case 3:
+				if h == L {
+					padded = w.realCommit(w.mutate("garbage-late-nil", h-1, h-1, r))
+					b := w.second(h-1, padded)
+					node.deliver(rq.p, b)
+					if accepted(b) {
+						used[i] = true
+						nbad++
+						journal = append(journal, fmt.Sprintf("peer %d: tip block %d whose LastCommit has a garbage nil-vote slot", rq.p.num, h))
+					}
+				} else {
+					node.deliver(rq.p, w.blocks[h])
+				}
+			case 4:
+				st := w.states[1]
+				b, _ := st.MakeBlock(h+150, c13Txs(h, 3), w.commits[1], nil, st.Validators.GetProposer().Address)
+				node.deliver(rq.p, b)
+				used[i] = true
+				journal = append(journal, fmt.Sprintf("peer %d: block of height %d for request %d", rq.p.num, h+150, h))
+			case 5:
+				node.deliver(rq.p, w.blocks[h])
+				before := accepted(w.blocks[h])
+				node.deliver(rq.p, w.blocks[h])
+				if pn, _ := node.reqView(h); before && pn != -1 {
+					used[i] = true
+					journal = append(journal, fmt.Sprintf("peer %d: block %d twice", rq.p.num, h))
+				}
+			case 6:
+				if h == L {
+					foreign = w.realCommit(w.mutate("foreign-addr", h-1, h-1, r))
+					node.deliver(rq.p, w.second(h-1, foreign))
+					journal = append(journal, fmt.Sprintf("peer %d: tip block %d whose LastCommit has a foreign address in one slot", rq.p.num, h))
+				} else {
+					node.deliver(rq.p, w.blocks[h])
+				}
+			}
+		}
+		deadline := time.Now().Add(time.Duration(vg.Scale(8, 12)) * time.Second)
+		switched := false
+	LOOP:
+		for time.Now().Before(deadline) {
+			var batch []c13Req
+			select {
+			case <-node.cons.ch:
+				switched = true
+				break LOOP
+			case rq := <-node.reqCh:
+				batch = append(batch, rq)
+			case <-time.After(2 * time.Millisecond):
+			}
+		DRAIN:
+			for {
+				select {
+				case rq := <-node.reqCh:
+					batch = append(batch, rq)
+				default:
+					break DRAIN
+				}
+			}
+			for _, j := range r.Perm(len(batch)) {
+				serve(batch[j])
+			}
+		}
+		node.bcR.Stop() //nolint:errcheck
+		time.Sleep(20 * time.Millisecond)
+		var stored []int64
+		for h := int64(1); h <= node.ex.blockStore.Height(); h++ {
+			m := node.ex.blockStore.LoadBlockMeta(h)
+			x := int64(999)
+			for idn, bid := range w.bids {
+				if m != nil && bid.Equals(m.BlockID) {
+					x = idn
+				}
+			}
+			stored = append(stored, x)
+		}
+		ho, seenClass := uint64(2), uint64(0)
+		if hh := node.ex.blockStore.Height(); hh > sc.start {
+			// wait for the state of the last stored block
+			for i := 0; i < 200; i++ {
+				if st, err := node.ex.stateStore.Load(); err == nil && st.LastBlockHeight >= hh {
+					break
+				}
+				time.Sleep(5 * time.Millisecond)
+			}
+			ho = node.handover()
+			seen := node.ex.blockStore.LoadSeenCommit(hh)
+			switch {
+			case seen != nil && string(seen.Hash()) == string(w.commits[hh].Hash()):
+				seenClass = 0
+			case seen != nil && foreign != nil && string(seen.Hash()) == string(foreign.Hash()):
+				seenClass = 1
+			default:
+				seenClass = 2
+			}
+		}
+		var canon []string
+		for h := int64(1); h <= L; h++ {
+			canon = append(canon, vg.Z(h))
+		}
+		var pts, pds []string
+		for i, ps := range sc.peers {
+			p := node.peers[i]
+			pts = append(pts, vg.Tup(vg.Z(p.num), vg.N(ps.script), vg.B(!p.IsRunning()), vg.B(used[i])))
+			pds = append(pds, fmt.Sprintf("peer %d %s announces [%d,%d] stopped=%v bad-answer-used=%v", p.num, c13ScriptNames[ps.script], ps.base, ps.height, !p.IsRunning(), used[i]))
+		}
+		node.close()
+		term := vg.App("CScen", vg.L(canon), vg.Z(sc.start), vg.ZL(stored), vg.Z(sc.tip), vg.L(pts), vg.Z(nbad), vg.B(switched), vg.N(ho), vg.N(seenClass))
+		descr := fmt.Sprintf("scenario %s: world %d (powers %v), node starts with blocks 1..%d; %s; responses in PRNG order (stream %d). Bad answers that entered a requester: %v. Observed: stored ids by height %v, SwitchToConsensus called=%v, consensus.NewState=%d (0 ok,1 panic,2 not run), seen commit of last block class %d",
+			sc.name, sc.wi, w.powers, sc.start, strings.Join(pds, "; "), 1000+k, journal, stored, switched, ho, seenClass)
+		cs.Add(id, "scen:"+strings.SplitN(sc.name, "-", 2)[0], len(sc.peers) > 1, term, descr)
+	}
+	if err := cs.Write(); err != nil {
+		t.Fatal(err)
+	}
+}
